@@ -43,6 +43,19 @@ func argLeaves(a Arg, paren bool, m Mode) []interface{} {
 
 func tmplLeaves(t *Tmpl, m Mode) []interface{} {
 	var out []interface{}
+	if t.Driver {
+		// driver-level named arguments: bound in the order they are passed, each under its name
+		for _, name := range t.ArgOrder {
+			for _, b := range t.Binds {
+				if b.Name == name {
+					for _, l := range argLeaves(b.A, false, m) {
+						out = append(out, NamedLeaf{Name: name, V: l})
+					}
+				}
+			}
+		}
+		return out
+	}
 	if t.Named() {
 		for _, ref := range t.Refs {
 			for _, b := range t.Binds {
@@ -707,7 +720,11 @@ func (w *walker) tmpl(t *Tmpl) {
 	}
 	if t.Named() {
 		w.info.Hazards["named"] = true
-		w.info.Classes["named:"+t.Carrier] = true
+		if t.Driver {
+			w.info.Classes["named:driver"] = true
+		} else {
+			w.info.Classes["named:"+t.Carrier] = true
+		}
 		if t.CarrierPtr {
 			w.info.Classes["named:struct-ptr"] = true
 		}
